@@ -70,6 +70,9 @@ enum OutK {
     Stderr,
     /// rotation whose (synchronous) cleanup compresses every rotated file at once
     FileNumGz,
+    /// log_to_file_and_writer: a file plus a second, asynchronous FileLogWriter; what is read
+    /// back is the second writer's file (E2 only)
+    FileAndAsyncWriter,
 }
 const OUTS: [OutK; 7] = [OutK::File, OutK::FileNum, OutK::FileTsD, OutK::Writer, OutK::Stdout, OutK::Stderr, OutK::FileNumGz];
 const MODES: [ModeK; 5] = [ModeK::Direct, ModeK::SupportCapture, ModeK::BufDont(CAP), ModeK::BufFlush(CAP, 3_600_000), ModeK::Async(1, 16, 0)];
@@ -121,6 +124,18 @@ fn build(mode: ModeK, out: OutK, in_sched: bool) -> Result<(World, Box<dyn Log>,
     let mut rec = None;
     let lb = match out {
         OutK::File | OutK::FileNum | OutK::FileTsD | OutK::FileNumGz => cfg.logger(&env.dir, &env.err),
+        OutK::FileAndAsyncWriter => {
+            let second = flexi_logger::writers::FileLogWriter::builder(flexi_logger::FileSpec::default().directory(env.dir.join("second")).basename("second").suppress_timestamp())
+                .format(lg::payload_format)
+                .write_mode(ModeK::Async(1, 16, 0).write_mode())
+                .try_build()
+                .map_err(|e| e.to_string())?;
+            Logger::with(LogSpecification::trace())
+                .log_to_file_and_writer(flexi_logger::FileSpec::default().directory(&env.dir).basename("app").suppress_timestamp(), Box::new(second))
+                .format(lg::payload_format)
+                .write_mode(mode.write_mode())
+                .error_channel(ErrorChannel::File(env.err.clone()))
+        }
         OutK::Writer => {
             let r = Recorder::new(LevelFilter::Trace);
             rec = Some(r.clone());
@@ -165,6 +180,7 @@ impl World {
                 let scan = family::scan(&self.env.dir, &self.cfg.parts, None, self.cfg.naming(), &[]);
                 scan.stream(&self.env.dir)
             }
+            OutK::FileAndAsyncWriter => Ok(std::fs::read(self.env.dir.join("second").join("second.log")).unwrap_or_default()),
             OutK::Stdout | OutK::Stderr => Ok(self.cap.as_ref().map(FdCapture::peek).unwrap_or_default()),
             OutK::Writer => Ok(Vec::new()),
         }
@@ -342,6 +358,8 @@ fn sched_cases() -> Vec<SCase> {
         c("async-file/two-shutdowns", ModeK::Async(1, 16, 0), OutK::File, 2, Term::Shutdown, true, 0, true),
         c("async-stdout/two-shutdowns", ModeK::Async(1, 16, 0), OutK::Stdout, 2, Term::Shutdown, true, 0, true),
     ];
+    v.push(c("file+async-second-writer/shutdown", ModeK::Direct, OutK::FileAndAsyncWriter, 3, Term::Shutdown, false, 0, false));
+    v.push(c("file+async-second-writer/drop", ModeK::Direct, OutK::FileAndAsyncWriter, 3, Term::DropLast, false, 0, false));
     for (name, mode, out) in [
         ("buffered-file/flush-vs-write", ModeK::BufDont(CAP), OutK::File),
         ("buffered-file-rotation/flush-vs-write", ModeK::BufDont(CAP), OutK::FileNum),
